@@ -33,14 +33,14 @@ JOBS = {
         "C13": [("StoreMC", store_cfg(1, '{<<"v","A","">>}', "{1, 2, 3}", 3, 4, EXP5, 1, ["C13_ExpiryExact"]))],
         "C12": [("NamesMC", names_cfg(NAMES7, 2))],
         "C03": [("StoreMC", store_cfg(2, '{<<"d","","">>, <<"v","A","">>}', "{1}", 3, 3, "{}", 2, ["C07_CompactionInvisible"]))],
-        "C09": [], "C11": [],
+        "C09": [], "C11": [], "C16": [],
     },
     "thorough": {
         "C07": [("StoreMC", store_cfg(2, VALS, "{1}", 4, 6, "{}", 2, ["C07_CompactionInvisible", "C07_TombstonesKept"]))],
         "C13": [("StoreMC", store_cfg(2, '{<<"v","A","">>}', "{1, 2, 3}", 3, 5, EXP5, 1, ["C13_ExpiryExact", "C07_CompactionInvisible"]))],
         "C12": [("NamesMC", names_cfg(NAMES7, 3))],
         "C03": [("StoreMC", store_cfg(3, '{<<"d","","">>, <<"v","A","">>, <<"v","B","">>}', "{1}", 3, 4, "{}", 2, ["C07_CompactionInvisible"]))],
-        "C09": [], "C11": [],
+        "C09": [], "C11": [], "C16": [],
     },
 }
 
